@@ -994,3 +994,195 @@ Proof.
     cbn [orb negb]. intros H; inversion H; subst. auto.
 Qed.
 Print Assumptions classify_embed_inv.
+
+Lemma field_at_prefix SE : forall r1 id pre s pre1 i1 sf1,
+  field_at SE id pre r1 = Some (pre1, i1, sf1) -> s <> [] ->
+  field_at SE id pre (r1 ++ s) = match classify pre1 i1 sf1 with
+                                 | FEmbed id' => field_at SE id' (pre1 ++ [i1]) s
+                                 | _ => None
+                                 end.
+Proof.
+  induction r1 as [|i rest IH]; intros id pre s pre1 i1 sf1 H Hs; [discriminate H|].
+  cbn [field_at app] in *. destruct (nth_error (fields_of SE id) i) as [sf|]; [|discriminate H].
+  destruct rest as [|k rest'].
+  - inversion H; subst. cbn [app]. destruct s as [|x s']; [contradiction Hs; reflexivity|]. reflexivity.
+  - cbn [app]. destruct (classify pre i sf) as [| |id']; try discriminate H.
+    apply (IH _ _ _ _ _ _ H Hs).
+Qed.
+
+Lemma is_prefix_app a : forall b, is_prefix a b = true -> exists s, b = a ++ s.
+Proof.
+  induction a as [|x a IH]; intros b H; [exists b; reflexivity|].
+  destruct b as [|y b]; [discriminate H|]. cbn [is_prefix] in H. apply andb_true_iff in H.
+  destruct H as [E H]. apply Nat.eqb_eq in E. subst y. destruct (IH _ H) as [s ->]. exists s. reflexivity.
+Qed.
+
+Theorem unfold_prefix_eq SE f id c1 c2 :
+  In c1 (unfold f SE id []) -> In c2 (unfold f SE id []) ->
+  is_prefix (c_route c1) (c_route c2) = true -> c1 = c2.
+Proof.
+  intros H1 H2 Hp.
+  apply unfold_addresses in H1. destruct H1 as (pre1 & i1 & sf1 & Hat1 & Hc1 & _).
+  apply unfold_addresses in H2. destruct H2 as (pre2 & i2 & sf2 & Hat2 & Hc2 & _).
+  apply is_prefix_app in Hp. destruct Hp as [s Hs]. destruct s as [|x s].
+  - rewrite app_nil_r in Hs. rewrite Hs, Hat1 in Hat2. inversion Hat2; subst. congruence.
+  - rewrite Hs, (field_at_prefix _ _ _ _ (x :: s) _ _ _ Hat1), Hc1 in Hat2; [discriminate|discriminate].
+Qed.
+
+Lemma is_prefix_refl a : is_prefix a a = true.
+Proof. induction a as [|x a IH]; [reflexivity|]. cbn [is_prefix]. rewrite Nat.eqb_refl. exact IH. Qed.
+
+Corollary unfold_route_inj SE f id c1 c2 :
+  In c1 (unfold f SE id []) -> In c2 (unfold f SE id []) -> c_route c1 = c_route c2 -> c1 = c2.
+Proof. intros H1 H2 E. apply (unfold_prefix_eq SE f id); auto. rewrite E. apply is_prefix_refl. Qed.
+
+Lemma prefix_free_pairwise (rs : list (list nat)) :
+  NoDup rs -> (forall a b, In a rs -> In b rs -> a <> b -> unrelated a b = true) -> prefix_free rs = true.
+Proof.
+  induction 1 as [|r rs Hn Hnd IH]; intros H; [reflexivity|]. cbn [prefix_free]. apply andb_true_iff. split.
+  - apply forallb_forall. intros b Hb. apply H; [left; reflexivity|right; exact Hb|].
+    intros ->. contradiction.
+  - apply IH. intros a b Ha Hb. apply H; right; assumption.
+Qed.
+
+(* ====================================================================== *)
+(* F. the pruned unfolding: only the first visit of a struct type matters    *)
+(* ====================================================================== *)
+
+Definition memZ (T : Z) (V : list Z) : bool := existsb (Z.eqb T) V.
+Lemma memZ_In T V : memZ T V = true <-> In T V.
+Proof.
+  unfold memZ. rewrite existsb_exists. split.
+  - intros (x & Hx & E). apply Z.eqb_eq in E. subst. exact Hx.
+  - intros H. exists T. split; [exact H|apply Z.eqb_refl].
+Qed.
+Lemma memZ_false T V : memZ T V = false <-> ~ In T V.
+Proof. rewrite <- memZ_In. destruct (memZ T V); split; congruence. Qed.
+
+Definition freshb (V : list Z) (p : path) : bool := negb (memZ (snd p) V).
+
+(* level by level, paths that end in a struct type already seen at a smaller depth are dropped
+   (together with everything below them) *)
+Fixpoint pruned (fuel : nat) (SE : senv) (Q : list path) (V : list Z) : list cand :=
+  match fuel with
+  | O => []
+  | S f => let F := filter (freshb V) Q in
+           flat_map (cands SE) F ++ pruned f SE (flat_map (embeds SE) F) (map snd Q ++ V)
+  end.
+
+Lemma pruned_nil f SE : forall V, pruned f SE [] V = [].
+Proof. induction f as [|f IH]; intros V; [reflexivity|]. cbn [pruned filter flat_map map app]. apply IH. Qed.
+
+Lemma filter_partition_perm {X} (p : X -> bool) l :
+  Permutation l (filter p l ++ filter (fun x => negb (p x)) l).
+Proof.
+  induction l as [|x l IH]; [apply Permutation_refl|]. cbn [filter]. destruct (p x); cbn [negb app].
+  - apply perm_skip. exact IH.
+  - apply Permutation_cons_app. exact IH.
+Qed.
+
+Lemma full_vs_pruned SE : forall fuel d P Q X V prev,
+  Permutation P (Q ++ X) ->
+  (forall p, In p P -> length (fst p) = d) ->
+  (forall p, In p X -> In (snd p) V) ->
+  (forall T r p', In T V -> In p' (embeds SE (r, T)) -> In (snd p') V \/ In (snd p') (map snd Q)) ->
+  (forall T r c, In T V -> In c (cands SE (r, T)) ->
+                 exists y, In y prev /\ c_name y = c_name c /\ (depth_of y <= d)%nat) ->
+  incl (pruned fuel SE Q V) (full fuel SE P) /\
+  (forall x, In x (full fuel SE P) ->
+             exists y, In y (prev ++ pruned fuel SE Q V) /\ c_name y = c_name x /\ (depth_of y <= depth_of x)%nat) /\
+  (forall n dq tg, (forall y, In y (prev ++ full fuel SE P) -> c_name y = n -> (dq <= depth_of y)%nat) ->
+                   cnt (pq n dq tg) (full fuel SE P) = cnt (pq n dq tg) (pruned fuel SE Q V)).
+Proof.
+  induction fuel as [|f IH]; intros d P Q X V prev HP Hlen HX Hclosed Hcov.
+  { cbn [full pruned]. split; [intros ? []|]. split; [intros ? []|reflexivity]. }
+  cbn [full pruned].
+  set (F := filter (freshb V) Q).
+  set (XX := filter (fun x => negb (freshb V x)) Q ++ X).
+  assert (HPF : Permutation P (F ++ XX)).
+  { eapply perm_trans; [exact HP|]. unfold XX. rewrite app_assoc. apply Permutation_app_tail.
+    apply filter_partition_perm. }
+  assert (HXX : forall p, In p XX -> In (snd p) V).
+  { intros p Hp. apply in_app_or in Hp. destruct Hp as [Hp|Hp]; [|auto].
+    apply filter_In in Hp. destruct Hp as [_ Hp]. unfold freshb in Hp. rewrite negb_involutive in Hp.
+    apply memZ_In. exact Hp. }
+  assert (HFQ : forall p, In p F -> In p Q /\ ~ In (snd p) V).
+  { intros p Hp. apply filter_In in Hp. destruct Hp as [Hq Hp]. split; [exact Hq|].
+    unfold freshb in Hp. apply negb_true_iff in Hp. apply memZ_false. exact Hp. }
+  assert (HinP : forall p, In p F \/ In p XX -> In p P).
+  { intros p Hp. eapply Permutation_in; [apply Permutation_sym; exact HPF|]. apply in_or_app. exact Hp. }
+  set (D := flat_map (cands SE) F).
+  set (E := flat_map (cands SE) XX).
+  assert (HC : Permutation (flat_map (cands SE) P) (D ++ E)).
+  { unfold D, E. rewrite <- flat_map_app. apply flat_map_perm. exact HPF. }
+  assert (HE : forall e, In e E -> depth_of e = S d /\
+                                   exists y, In y prev /\ c_name y = c_name e /\ (depth_of y <= d)%nat).
+  { intros e He. apply in_flat_map in He. destruct He as (p & Hp & He). split.
+    - rewrite (cands_depth _ _ _ He). f_equal. apply Hlen. apply HinP. right. exact Hp.
+    - destruct p as [r T]. apply (Hcov T r e); [apply (HXX _ Hp)|exact He]. }
+  assert (HD : forall c, In c D -> depth_of c = S d).
+  { intros c Hc. apply in_flat_map in Hc. destruct Hc as (p & Hp & Hc).
+    rewrite (cands_depth _ _ _ Hc). f_equal. apply Hlen. apply HinP. left. exact Hp. }
+  (* the next level *)
+  set (P' := flat_map (embeds SE) P). set (Q' := flat_map (embeds SE) F).
+  set (X' := flat_map (embeds SE) XX). set (V' := map snd Q ++ V).
+  assert (HP' : Permutation P' (Q' ++ X')).
+  { unfold P', Q', X'. rewrite <- flat_map_app. apply flat_map_perm. exact HPF. }
+  assert (Hlen' : forall p, In p P' -> length (fst p) = S d).
+  { intros p Hp. apply in_flat_map in Hp. destruct Hp as (p0 & Hp0 & Hp).
+    rewrite (embeds_len _ _ _ Hp). f_equal. apply Hlen. exact Hp0. }
+  assert (HVV' : forall T, In T V -> In T V') by (intros T H; apply in_or_app; right; exact H).
+  assert (HQV' : forall T, In T (map snd Q) -> In T V') by (intros T H; apply in_or_app; left; exact H).
+  assert (HX' : forall p, In p X' -> In (snd p) V').
+  { intros p Hp. apply in_flat_map in Hp. destruct Hp as ([r T] & Hp0 & Hp).
+    destruct (Hclosed T r p (HXX _ Hp0) Hp) as [H|H]; auto. }
+  assert (Hfresh_dec : forall T, In T V' -> In T V \/ (exists p, In p F /\ snd p = T)).
+  { intros T HT. destruct (memZ T V) eqn:Em; [left; apply memZ_In; exact Em|]. right.
+    apply in_app_or in HT. destruct HT as [HT|HT]; [|apply memZ_In in HT; congruence].
+    apply in_map_iff in HT. destruct HT as (p & <- & Hp). exists p. split; [|reflexivity].
+    apply filter_In. split; [exact Hp|]. unfold freshb. rewrite Em. reflexivity. }
+  assert (Hclosed' : forall T r p', In T V' -> In p' (embeds SE (r, T)) ->
+                                    In (snd p') V' \/ In (snd p') (map snd Q')).
+  { intros T r p' HT Hp'. destruct (Hfresh_dec T HT) as [HV|([r0 T0] & Hp & <-)].
+    - left. destruct (Hclosed T r p' HV Hp') as [H|H]; auto.
+    - right. cbn [snd] in *.
+      assert (Hi : In (snd p') (map snd (embeds SE (r0, T0)))).
+      { rewrite (embeds_ids SE r r0 T0). apply in_map. exact Hp'. }
+      apply in_map_iff in Hi. destruct Hi as (q & Hq & Hi). apply in_map_iff. exists q. split; [exact Hq|].
+      apply in_flat_map. exists (r0, T0). auto. }
+  assert (Hcov' : forall T r c, In T V' -> In c (cands SE (r, T)) ->
+                    exists y, In y (prev ++ D) /\ c_name y = c_name c /\ (depth_of y <= S d)%nat).
+  { intros T r c HT Hc. destruct (Hfresh_dec T HT) as [HV|([r0 T0] & Hp & <-)].
+    - destruct (Hcov T r c HV Hc) as (y & Hy & Hn & Hd). exists y. split; [apply in_or_app; left; exact Hy|].
+      split; [exact Hn|lia].
+    - cbn [snd] in *.
+      assert (Hn : In (c_name c) (map c_name (cands SE (r0, T0)))).
+      { rewrite (cands_names SE r r0 T0). apply in_map. exact Hc. }
+      apply in_map_iff in Hn. destruct Hn as (y & Hn & Hy).
+      assert (HyD : In y D) by (apply in_flat_map; exists (r0, T0); auto).
+      exists y. split; [apply in_or_app; right; exact HyD|]. split; [exact Hn|]. rewrite (HD y HyD). lia. }
+  destruct (IH (S d) P' Q' X' V' (prev ++ D) HP' Hlen' HX' Hclosed' Hcov') as (I1 & I2 & I3).
+  fold D Q' V' P'.
+  split; [|split].
+  - intros c Hc. apply in_app_or in Hc. apply in_or_app. destruct Hc as [Hc|Hc]; [left|right; apply I1; exact Hc].
+    eapply Permutation_in; [apply Permutation_sym; exact HC|]. apply in_or_app. left. exact Hc.
+  - intros x Hx. apply in_app_or in Hx. destruct Hx as [Hx|Hx].
+    + apply (Permutation_in _ HC) in Hx. apply in_app_or in Hx. destruct Hx as [Hx|Hx].
+      * exists x. split; [|split; [reflexivity|lia]]. apply in_or_app. right. apply in_or_app. left. exact Hx.
+      * destruct (HE x Hx) as (Hdx & y & Hy & Hn & Hd). exists y. split; [apply in_or_app; left; exact Hy|].
+        split; [exact Hn|lia].
+    + destruct (I2 x Hx) as (y & Hy & Hn & Hd). exists y. split; [|auto].
+      rewrite <- app_assoc in Hy. exact Hy.
+  - intros n dq tg Hmin. rewrite !cnt_app, (cnt_perm _ _ _ HC), cnt_app.
+    assert (Z : cnt (pq n dq tg) E = 0%nat).
+    { apply cnt_zero. intros e He. destruct (pq n dq tg e) eqn:Epq; [|reflexivity].
+      apply pq_true in Epq. destruct Epq as (Hn & Hd & _).
+      destruct (HE e He) as (Hde & y & Hy & Hny & Hdy).
+      assert (dq <= depth_of y)%nat; [|lia].
+      apply Hmin; [apply in_or_app; left; exact Hy|congruence]. }
+    rewrite Z, Nat.add_0_r. f_equal. apply I3.
+    intros y Hy. apply Hmin. rewrite <- app_assoc in Hy. apply in_app_or in Hy. apply in_or_app.
+    destruct Hy as [Hy|Hy]; [left; exact Hy|right]. apply in_app_or in Hy. apply in_or_app.
+    destruct Hy as [Hy|Hy]; [left|right; exact Hy].
+    eapply Permutation_in; [apply Permutation_sym; exact HC|]. apply in_or_app. left. exact Hy.
+Qed.
